@@ -741,6 +741,15 @@ def rand_op(rng, keyslots, own_entry, pubs):
             else:
                 v = rbytes(rng, rng.randrange(0, 12))
             ik.append("%s:%s" % (hx(k), hx(v)))
+        # the same key twice in one call (a later occurrence sees what the earlier one wrote), a key both removed and
+        # inserted, a key removed twice
+        if ik and rng.random() < 0.3:
+            k0 = ik[rng.randrange(len(ik))].split(":")[0]
+            ik.insert(rng.randrange(len(ik) + 1), "%s:%s" % (k0, hx(rbytes(rng, rng.randrange(0, 5)))))
+        if ik and rng.random() < 0.2:
+            rk.append(ik[0].split(":")[0])
+        if rk and rng.random() < 0.2:
+            rk.append(rk[0])
         return "remove_insert %s %s %s %s" % (slot, fail, ",".join(rk) or "none", ",".join(ik) or "none")
     return "set_public_key %s %s %s" % (slot, fail, rng.choice(keyslots))
 
